@@ -122,19 +122,20 @@ func (o *Optimizer) OptimizeStatements(stmts []ast.Statement) []ast.Statement {
 			// Optimize the value expression
 			optimizedValue := o.OptimizeExpression(s.Value)
 
+			// The target gets a new value: whatever was known about the old
+			// one (and about variables copied from it) no longer holds
+			o.invalidateVar(s.Target)
+
 			// Copy propagation: track variable-to-variable assignments
 			if varExpr, ok := optimizedValue.(*ast.VariableExpr); ok {
-				o.copies[s.Target] = varExpr.Name
-				// Invalidate constant and expression tracking for this variable
-				delete(o.constants, s.Target)
+				if varExpr.Name != s.Target {
+					o.copies[s.Target] = varExpr.Name
+				}
 			} else {
-				// Not a copy, remove from copy tracking
-				delete(o.copies, s.Target)
-
 				// Common subexpression elimination (only for OptAggressive)
 				if o.level >= OptAggressive {
 					key := exprKey(optimizedValue)
-					if key != "" {
+					if key != "" && !exprKeyMentions(key, s.Target) {
 						// Check if this expression was already computed
 						if existingVar, ok := o.expressions[key]; ok {
 							// Reuse the existing variable
@@ -167,19 +168,20 @@ func (o *Optimizer) OptimizeStatements(stmts []ast.Statement) []ast.Statement {
 			// Optimize the value expression (same logic as AssignStatement)
 			optimizedValue := o.OptimizeExpression(s.Value)
 
+			// The target gets a new value: whatever was known about the old
+			// one (and about variables copied from it) no longer holds
+			o.invalidateVar(s.Target)
+
 			// Copy propagation: track variable-to-variable assignments
 			if varExpr, ok := optimizedValue.(*ast.VariableExpr); ok {
-				o.copies[s.Target] = varExpr.Name
-				// Invalidate constant and expression tracking for this variable
-				delete(o.constants, s.Target)
+				if varExpr.Name != s.Target {
+					o.copies[s.Target] = varExpr.Name
+				}
 			} else {
-				// Not a copy, remove from copy tracking
-				delete(o.copies, s.Target)
-
 				// Common subexpression elimination (only for OptAggressive)
 				if o.level >= OptAggressive {
 					key := exprKey(optimizedValue)
-					if key != "" {
+					if key != "" && !exprKeyMentions(key, s.Target) {
 						// Check if this expression was already computed
 						if existingVar, ok := o.expressions[key]; ok {
 							// Reuse the existing variable
@@ -212,15 +214,16 @@ func (o *Optimizer) OptimizeStatements(stmts []ast.Statement) []ast.Statement {
 			// Same as *ast.ReassignStatement
 			optimizedValue := o.OptimizeExpression(s.Value)
 
-			if varExpr, ok := optimizedValue.(*ast.VariableExpr); ok {
-				o.copies[s.Target] = varExpr.Name
-				delete(o.constants, s.Target)
-			} else {
-				delete(o.copies, s.Target)
+			o.invalidateVar(s.Target)
 
+			if varExpr, ok := optimizedValue.(*ast.VariableExpr); ok {
+				if varExpr.Name != s.Target {
+					o.copies[s.Target] = varExpr.Name
+				}
+			} else {
 				if o.level >= OptAggressive {
 					key := exprKey(optimizedValue)
-					if key != "" {
+					if key != "" && !exprKeyMentions(key, s.Target) {
 						if existingVar, ok := o.expressions[key]; ok {
 							optimizedValue = &ast.VariableExpr{Name: existingVar}
 							o.copies[s.Target] = existingVar
@@ -270,11 +273,21 @@ func (o *Optimizer) OptimizeStatements(stmts []ast.Statement) []ast.Statement {
 				}
 			}
 
-			// Not a constant condition - optimize both branches
+			// Not a constant condition - optimize both branches, each from
+			// the facts known before the statement. After the join nothing is
+			// known about variables either branch may have assigned.
+			before := o.snapshot()
+			thenBlock := o.OptimizeStatements(s.ThenBlock)
+			o.restore(before)
+			elseBlock := o.OptimizeStatements(s.ElseBlock)
+			o.restore(before)
+			o.invalidateVars(getModifiedVariables(s.ThenBlock))
+			o.invalidateVars(getModifiedVariables(s.ElseBlock))
+
 			optimized := &ast.IfStatement{
 				Condition: condition,
-				ThenBlock: o.OptimizeStatements(s.ThenBlock),
-				ElseBlock: o.OptimizeStatements(s.ElseBlock),
+				ThenBlock: thenBlock,
+				ElseBlock: elseBlock,
 			}
 			result = append(result, optimized)
 
@@ -282,11 +295,7 @@ func (o *Optimizer) OptimizeStatements(stmts []ast.Statement) []ast.Statement {
 			// First, invalidate constants for any variables modified in the loop body
 			// because the loop may execute multiple times or not at all
 			modifiedVars := getModifiedVariables(s.Body)
-			for varName := range modifiedVars {
-				delete(o.constants, varName)
-				delete(o.copies, varName)
-				delete(o.expressions, varName)
-			}
+			o.invalidateVars(modifiedVars)
 
 			// Loop invariant code motion (OptAggressive only)
 			var invariantStmts []ast.Statement
@@ -320,10 +329,18 @@ func (o *Optimizer) OptimizeStatements(stmts []ast.Statement) []ast.Statement {
 				result = append(result, o.OptimizeStatements([]ast.Statement{invStmt})...)
 			}
 
-			// Optimize condition and remaining loop body
+			// Optimize condition and remaining loop body. What the body
+			// learns holds for one iteration only: drop it afterwards, the
+			// loop may have run any number of times (including none).
+			loopCondition := o.OptimizeExpression(s.Condition)
+			beforeBody := o.snapshot()
+			optimizedBody := o.OptimizeStatements(loopBody)
+			o.restore(beforeBody)
+			o.invalidateVars(modifiedVars)
+
 			optimized := &ast.WhileStatement{
-				Condition: o.OptimizeExpression(s.Condition),
-				Body:      o.OptimizeStatements(loopBody),
+				Condition: loopCondition,
+				Body:      optimizedBody,
 			}
 			result = append(result, optimized)
 
@@ -331,35 +348,23 @@ func (o *Optimizer) OptimizeStatements(stmts []ast.Statement) []ast.Statement {
 			// Invalidate constants for any variables modified in the for loop body
 			// because the loop may execute multiple times or not at all
 			modifiedVars := getModifiedVariables(s.Body)
-			for varName := range modifiedVars {
-				delete(o.constants, varName)
-				delete(o.copies, varName)
-				delete(o.expressions, varName)
-			}
+			o.invalidateVars(modifiedVars)
 			// Also invalidate the loop variables themselves
 			if s.KeyVar != "" {
-				delete(o.constants, s.KeyVar)
-				delete(o.copies, s.KeyVar)
+				o.invalidateVar(s.KeyVar)
 			}
-			delete(o.constants, s.ValueVar)
-			delete(o.copies, s.ValueVar)
+			o.invalidateVar(s.ValueVar)
 			// Add the for statement unchanged (could optimize body in future)
 			result = append(result, s)
 
 		case ast.ForStatement:
 			// Same as *ast.ForStatement
 			modifiedVars := getModifiedVariables(s.Body)
-			for varName := range modifiedVars {
-				delete(o.constants, varName)
-				delete(o.copies, varName)
-				delete(o.expressions, varName)
-			}
+			o.invalidateVars(modifiedVars)
 			if s.KeyVar != "" {
-				delete(o.constants, s.KeyVar)
-				delete(o.copies, s.KeyVar)
+				o.invalidateVar(s.KeyVar)
 			}
-			delete(o.constants, s.ValueVar)
-			delete(o.copies, s.ValueVar)
+			o.invalidateVar(s.ValueVar)
 			result = append(result, &s)
 
 		case *ast.SwitchStatement:
@@ -367,20 +372,12 @@ func (o *Optimizer) OptimizeStatements(stmts []ast.Statement) []ast.Statement {
 			// because we don't know which case will execute at compile time
 			for _, switchCase := range s.Cases {
 				modifiedVars := getModifiedVariables(switchCase.Body)
-				for varName := range modifiedVars {
-					delete(o.constants, varName)
-					delete(o.copies, varName)
-					delete(o.expressions, varName)
-				}
+				o.invalidateVars(modifiedVars)
 			}
 			// Also invalidate variables modified in the default case
 			if len(s.Default) > 0 {
 				modifiedVars := getModifiedVariables(s.Default)
-				for varName := range modifiedVars {
-					delete(o.constants, varName)
-					delete(o.copies, varName)
-					delete(o.expressions, varName)
-				}
+				o.invalidateVars(modifiedVars)
 			}
 			result = append(result, s)
 
@@ -388,19 +385,11 @@ func (o *Optimizer) OptimizeStatements(stmts []ast.Statement) []ast.Statement {
 			// Same as *ast.SwitchStatement
 			for _, switchCase := range s.Cases {
 				modifiedVars := getModifiedVariables(switchCase.Body)
-				for varName := range modifiedVars {
-					delete(o.constants, varName)
-					delete(o.copies, varName)
-					delete(o.expressions, varName)
-				}
+				o.invalidateVars(modifiedVars)
 			}
 			if len(s.Default) > 0 {
 				modifiedVars := getModifiedVariables(s.Default)
-				for varName := range modifiedVars {
-					delete(o.constants, varName)
-					delete(o.copies, varName)
-					delete(o.expressions, varName)
-				}
+				o.invalidateVars(modifiedVars)
 			}
 			result = append(result, &s)
 
@@ -410,6 +399,94 @@ func (o *Optimizer) OptimizeStatements(stmts []ast.Statement) []ast.Statement {
 	}
 
 	return result
+}
+
+// optimizerState is a copy of the facts the optimizer has learned so far.
+type optimizerState struct {
+	constants   map[string]ast.Literal
+	expressions map[string]string
+	copies      map[string]string
+}
+
+// snapshot copies the current facts so a branch can be optimized without
+// leaking what it learns into its sibling or into the code after the join.
+func (o *Optimizer) snapshot() optimizerState {
+	st := optimizerState{
+		constants:   make(map[string]ast.Literal, len(o.constants)),
+		expressions: make(map[string]string, len(o.expressions)),
+		copies:      make(map[string]string, len(o.copies)),
+	}
+	for k, v := range o.constants {
+		st.constants[k] = v
+	}
+	for k, v := range o.expressions {
+		st.expressions[k] = v
+	}
+	for k, v := range o.copies {
+		st.copies[k] = v
+	}
+	return st
+}
+
+// restore replaces the current facts with a snapshot (which stays reusable).
+func (o *Optimizer) restore(st optimizerState) {
+	o.constants = make(map[string]ast.Literal, len(st.constants))
+	o.expressions = make(map[string]string, len(st.expressions))
+	o.copies = make(map[string]string, len(st.copies))
+	for k, v := range st.constants {
+		o.constants[k] = v
+	}
+	for k, v := range st.expressions {
+		o.expressions[k] = v
+	}
+	for k, v := range st.copies {
+		o.copies[k] = v
+	}
+}
+
+// invalidateVar forgets everything that depends on the previous value of a
+// variable that is being assigned: its constant, its copy source, copies OF
+// it held by other variables, and remembered expressions that compute from it
+// or are held by it.
+func (o *Optimizer) invalidateVar(name string) {
+	delete(o.constants, name)
+	delete(o.copies, name)
+	for k, v := range o.copies {
+		if v == name {
+			delete(o.copies, k)
+		}
+	}
+	for key, holder := range o.expressions {
+		if holder == name || exprKeyMentions(key, name) {
+			delete(o.expressions, key)
+		}
+	}
+}
+
+// invalidateVars applies invalidateVar to a set of variables.
+func (o *Optimizer) invalidateVars(names map[string]bool) {
+	for name := range names {
+		o.invalidateVar(name)
+	}
+}
+
+// exprKeyMentions reports whether a CSE key (see exprKey) refers to a variable.
+func exprKeyMentions(key, name string) bool {
+	needle := "var:" + name
+	for i := 0; i+len(needle) <= len(key); i++ {
+		if key[i:i+len(needle)] != needle {
+			continue
+		}
+		end := i + len(needle)
+		if end == len(key) || !isIdentByte(key[end]) {
+			return true
+		}
+	}
+	return false
+}
+
+func isIdentByte(b byte) bool {
+	return b == '_' || (b >= '0' && b <= '9') || (b >= 'a' && b <= 'z') || (b >= 'A' && b <= 'Z')
 }
 
 // foldBinaryOp performs constant folding on binary operations
@@ -831,8 +908,37 @@ func getModifiedVariablesInStmt(stmt ast.Statement, modified map[string]bool) {
 		for _, elseStmt := range s.ElseBlock {
 			getModifiedVariablesInStmt(elseStmt, modified)
 		}
+	case ast.IfStatement:
+		for _, thenStmt := range s.ThenBlock {
+			getModifiedVariablesInStmt(thenStmt, modified)
+		}
+		for _, elseStmt := range s.ElseBlock {
+			getModifiedVariablesInStmt(elseStmt, modified)
+		}
 	case *ast.WhileStatement:
 		for _, bodyStmt := range s.Body {
+			getModifiedVariablesInStmt(bodyStmt, modified)
+		}
+	case ast.WhileStatement:
+		for _, bodyStmt := range s.Body {
+			getModifiedVariablesInStmt(bodyStmt, modified)
+		}
+	case *ast.SwitchStatement:
+		for _, c := range s.Cases {
+			for _, bodyStmt := range c.Body {
+				getModifiedVariablesInStmt(bodyStmt, modified)
+			}
+		}
+		for _, bodyStmt := range s.Default {
+			getModifiedVariablesInStmt(bodyStmt, modified)
+		}
+	case ast.SwitchStatement:
+		for _, c := range s.Cases {
+			for _, bodyStmt := range c.Body {
+				getModifiedVariablesInStmt(bodyStmt, modified)
+			}
+		}
+		for _, bodyStmt := range s.Default {
 			getModifiedVariablesInStmt(bodyStmt, modified)
 		}
 	case *ast.ForStatement:
